@@ -24,7 +24,7 @@ def driveAll {σ ω} (F : Flavor σ ω) (s : σ) : List Call → σ
   | [] => s
   | c :: cs => driveAll F (c.apply F s).1 cs
 
-theorem writeAt_length (mem : List Byte) (pos : Nat) (bs : List Byte) (h : pos + bs.length ≤ mem.length) :
+theorem writeAt_length' (mem : List Byte) (pos : Nat) (bs : List Byte) (h : pos + bs.length ≤ mem.length) :
     (writeAt mem pos bs).length = mem.length := by
   simp only [writeAt, List.length_append, List.length_take, List.length_drop]
   omega
@@ -49,7 +49,7 @@ theorem slice_call_inv (s : SliceSt) (c : Call) (h : s.cursor ≤ s.mem.length) 
     · exact ⟨rfl, h, Nat.le_refl _, fun _ => rfl⟩
     · rename_i hfit
       have hlen : (writeAt s.mem s.cursor bs).length = s.mem.length :=
-        writeAt_length _ _ _ (by omega)
+        writeAt_length' _ _ _ (by omega)
       refine ⟨hlen, ?_, by simp, fun hc => absurd rfl hc⟩
       simp only [hlen]; omega
 
